@@ -85,10 +85,12 @@ def may_be_kind(t, *kinds):
 class Typer:
     """Annotation parsing and per-function flow-insensitive local type inference."""
 
-    def __init__(self, prog):
+    def __init__(self, prog, nominal=False):
         self.prog = prog
         self._envs = {}
         self._alias_guard = set()
+        # nominal=True keeps the NewType names of the repository (State, Symbol, Direction) as sorts: ('str', 'State')
+        self.nominal = nominal
 
     # annotations ------------------------------------------------------------------
     def parse_annotation(self, module, func, expr):
@@ -136,7 +138,10 @@ class Typer:
                 try:
                     v = m.globals[name]
                     if isinstance(v, ast.Call) and isinstance(v.func, ast.Name) and v.func.id == 'NewType' and len(v.args) == 2:
-                        return self.parse_annotation(m, None, v.args[1])
+                        base = self.parse_annotation(m, None, v.args[1])
+                        if self.nominal and base == STR:
+                            return ('str', name)
+                        return base
                     return self.parse_annotation(m, None, v)
                 finally:
                     self._alias_guard.discard(key)
@@ -494,6 +499,11 @@ class TypeEnv:
             rt = self.typer.return_type(f)
             return rt
         if ref.kind == 'global':
+            if self.typer.nominal:
+                m, gname = ref.target
+                v = m.globals.get(gname)
+                if isinstance(v, ast.Call) and isinstance(v.func, ast.Name) and v.func.id == 'NewType' and len(v.args) == 2:
+                    return self.typer.parse_annotation(m, None, ast.Name(id=gname))
             return None
         name = ref.name
         if ref.kind == 'builtin':
